@@ -43,7 +43,7 @@ CONFIG = {
     'quick': {'shards': 16, 'cases': 36, 'timeout': 600, 'floor': 120},
     'thorough': {'shards': 32, 'cases': 360, 'timeout': 3000, 'floor': 2300},
 }
-REQUIRED = ['met_chains', 'met_steps_walked', 'met_accepts', 'met_rejects', 'met_rejects_nonfinite',
+REQUIRED = ['halfnormal_moment_stats_nuts', 'halfnormal_moment_stats_metropolis', 'met_chains', 'met_steps_walked', 'met_accepts', 'met_rejects', 'met_rejects_nonfinite',
             'met_replay_compared', 'met_trace_ok', 'nuts_chains', 'states_reevaluated_metropolis',
             'states_reevaluated_nuts', 'determinism_pairs_metropolis', 'determinism_pairs_nuts',
             'moment_stats_metropolis', 'moment_stats_nuts', 'moment_pooled_cases', 'target_evals_nan', 'target_evals_neginf',
@@ -514,9 +514,20 @@ def gen_nutspool(rng):
     return {'kind': 'nutspool', 'chains': chains}
 
 
+def gen_halfmom(rng, kernel):
+    d = int(rng.integers(1, 3))
+    return {'kind': 'halfmom', 'kernel': kernel, 'sd': [float(x) for x in rng.choice([0.5, 1.0, 3.0], size=d)],
+            'outside': str(rng.choice(['nan', 'neginf'])), 'n': 4000, 'n_adapt': 500, 'seed': _seed(rng),
+            'x0': [float(x) for x in rng.uniform(0.3, 1.5, size=d)]}
+
+
 def gen_cases(ctx):
     rng = ctx.rng
     for i in range(ctx.ncases):
+        if i % 18 == 11:
+            # a standard target with a hard support boundary and known moments: independent half-normals
+            yield gen_halfmom(rng, 'nuts' if (i // 18 + ctx.shard) % 2 == 0 else 'met')
+            continue
         kind = KINDS[(i + ctx.shard) % len(KINDS)]
         if i % 36 == 5:
             yield gen_nutspool(rng)
@@ -573,9 +584,73 @@ def run_pool(ctx, case):
     ctx.event('moment_outlier_unconfirmed')
 
 
+def _half_chain(case, seed):
+    import elfi.methods.mcmc as mc
+    sd = np.array(case['sd'], dtype=float)
+    nan_outside = case['outside'] == 'nan'
+
+    def target(x):
+        x = np.asarray(x, dtype=float)
+        with np.errstate(all='ignore'):
+            if nan_outside:
+                return float(np.sum(-0.5 * (x / sd) ** 2 + 0.0 * np.log(x)))       # log of a negative number: NaN beyond the boundary
+            return float(np.sum(-0.5 * (x / sd) ** 2)) if np.all(x > 0) else -np.inf
+
+    def grad(x):
+        x = np.asarray(x, dtype=float)
+        with np.errstate(all='ignore'):
+            return -x / sd ** 2 + (0.0 * np.log(x) if nan_outside else 0.0)          # NaN gradient beyond the boundary in the NaN flavour
+
+    x0 = np.array(case['x0'], dtype=float)
+    try:
+        if case['kernel'] == 'nuts':
+            ch = mc.nuts(case['n'], x0, target, grad, n_adapt=case['n_adapt'], seed=seed)
+            return ch[case['n_adapt']:]
+        return mc.metropolis(case['n'], x0, target, 1.2 * sd, warmup=case['n_adapt'], seed=seed)
+    except ValueError as e:
+        if 'Cannot find acceptable stepsize' in str(e):
+            raise Skip('nuts: no acceptable stepsize found')
+        raise
+
+
+def _half_z(case, ch):
+    sd = np.array(case['sd'], dtype=float)
+    out = {}
+    for j in range(ch.shape[1]):
+        y = ch[:, j] / sd[j]
+        for name, series, expect in (('mean%d' % j, y, math.sqrt(2.0 / math.pi)), ('sq%d' % j, y ** 2, 1.0)):
+            v = float(np.var(series))
+            e = max(ess(series), 5.0)
+            out[name] = float('inf') if v == 0.0 else (float(series.mean()) - expect) / math.sqrt(v / e)
+    return out
+
+
+def run_halfmom(ctx, case):
+    """Moments on a standard target with a hard boundary (independent half-normals, NaN or -inf outside)."""
+    kname = 'nuts' if case['kernel'] == 'nuts' else 'metropolis'
+    ch = _half_chain(case, case['seed'])
+    zs = _half_z(case, ch)
+    ctx.event('halfnormal_moment_stats_' + kname, len(zs))
+    ctx.nontrivial(len(np.unique(ch[:, 0])) > 1)
+    big = {k: v for k, v in zs.items() if not abs(v) <= Z_MAX}
+    if not big:
+        return
+    ch2 = _half_chain(case, (case['seed'] + 1000003) % (2 ** 32))
+    zs2 = _half_z(case, ch2)
+    conf = {k: (v, zs2[k]) for k, v in big.items() if not abs(zs2[k]) <= Z_MAX and np.sign(zs2[k]) == np.sign(v)}
+    if conf:
+        raise Violation(kname + '-moments', '%s on independent half-normals (%s outside the support): moment statistics off by |z| > %g on two '
+                        'independent seeds: %s; distinct states after warm-up: %d of %d' % (
+                            kname, case['outside'], Z_MAX, {k: (round(a, 1), round(b, 1)) for k, (a, b) in conf.items()},
+                            len(np.unique(ch[:, 0])), len(ch)), {'z_first_second': conf})
+    ctx.event('moment_outlier_unconfirmed')
+
+
 def run_case(ctx, case):
     if case['kind'] == 'nutspool':
         return run_pool(ctx, case)
+    if case['kind'] == 'halfmom':
+        return run_halfmom(ctx, case)
     tgt = Target(case['target'])
     kw = case['kw']
     kind = 'met' if case['kind'] in ('met', 'metmom') else 'nuts'
